@@ -46,16 +46,19 @@ theorem context_holds_the_arguments {nm : Tok} {o : TaskOpts} {ps : List Param} 
 
 /-- Every argument's first name is the parameter name with the surrounding underscores stripped and the
     inner ones shown as dashes; it is non-empty, free of underscores, made of alphanumerics and dashes,
-    and its flag is `--name` (or `-x` for a one-character name). -/
+    begins and ends with an alphanumeric, and its flag is `--name` (or `-x` for a one-character name). -/
 theorem long_flag_wellformed {o : TaskOpts} {ps : List Param} (hid : IdentSig ps) (hnb : NoBlankName ps) :
     ∀ a ∈ argList o ps, ∃ main rest, a.names = main :: rest ∧
       main = translateUnderscores a.pyName ∧ main ≠ [] ∧ '_' ∉ main ∧
       (∀ ch ∈ main, ch = '-' ∨ ch.isAlphanum = true) ∧
+      (∀ ch, main.head? = some ch → ch.isAlphanum = true) ∧
+      (∀ ch, main.getLast? = some ch → ch.isAlphanum = true) ∧
       toFlag main = (if main.length = 1 then '-' :: main else '-' :: '-' :: main) := by
   intro a ha
   rcases mem_argList ha with ⟨p, hp, t, rfl⟩
   refine ⟨dashedName p.name, _, argOpts_names o _ p t, ?_, dashedName_ne_nil (hnb p hp),
-    dashedName_no_underscore _, dashedName_chars (hid p hp), toFlag_of_no_underscore (dashedName_no_underscore _)⟩
+    dashedName_no_underscore _, dashedName_chars (hid p hp), (dashedName_ends_alnum (hid p hp)).1,
+    (dashedName_ends_alnum (hid p hp)).2, toFlag_of_no_underscore (dashedName_no_underscore _)⟩
   rw [argOpts_pyName, dashedName_eq_translate]
 
 /-- An argument has its long name and at most one further name. -/
@@ -115,6 +118,17 @@ theorem flags_distinct {nm : Tok} {o : TaskOpts} {ps : List Param} {c : Ctx} (hn
   rcases mem_argList hsp with ⟨p, hp, t, rfl⟩
   exact argOpts_normalSpec (hnb p hp)
 
+/-- Every name of an argument spells a flag that reaches exactly that argument: the flag table maps it to
+    the argument's slot, and the slot holds the argument (untouched). -/
+theorem flag_reaches_its_argument {nm : Tok} {o : TaskOpts} {ps : List Param} {c : Ctx} (hnb : NoBlankName ps)
+    (h : mkCtx nm o ps = .ok c) {j : Nat} {a : ArgSpec} (hj : (argList o ps)[j]? = some a)
+    {n : Tok} (hn : n ∈ a.names) :
+    assoc? (toFlag n) c.flags = some j ∧ c.args[j]? = some (Arg.init a) := by
+  refine ofSpecsChecked_flag_reaches ?_ (mkCtx_ok_iff.1 h).2 hj hn
+  intro sp hsp
+  rcases mem_argList hsp with ⟨p, hp, t, rfl⟩
+  exact argOpts_normalSpec (hnb p hp)
+
 /-- Building fails only with `ValueError`, and only when a help key names no parameter, two parameters
     share a CLI name, or a parameter's CLI name is the `--no-` form of a default-true boolean. -/
 theorem error_only_on_clash {nm : Tok} {o : TaskOpts} {ps : List Param} {e : Err} (hnb : NoBlankName ps)
@@ -157,6 +171,17 @@ theorem error_only_on_clash {nm : Tok} {o : TaskOpts} {ps : List Param} {e : Err
         simp at this
     rcases this with ⟨c, hc'⟩
     rw [hc'] at h; cases h
+
+/-- Both outcomes in one statement: either a context with pairwise distinct flag names, or a `ValueError`
+    whose cause is a leftover help key, a shared CLI name or a colliding `--no-` form. -/
+theorem flags_distinct_or_error (nm : Tok) (o : TaskOpts) (ps : List Param) (hnb : NoBlankName ps) :
+    match mkCtx nm o ps with
+    | .ok c => (c.flagNames ++ c.inverseNames).Nodup
+    | .error e => (∃ site, e = .other "ValueError" site) ∧
+        (helpOK o ps = false ∨ ¬ (ps.map (fun p => dashedName p.name)).Nodup ∨ ¬ NoInverseCollision o ps) := by
+  cases h : mkCtx nm o ps with
+  | ok c => exact flags_distinct hnb h
+  | error e => exact error_only_on_clash hnb h
 
 /-- Conversely, each of these situations makes building fail: a context exists exactly when all help keys
     are used, the CLI names are pairwise distinct and no `--no-` form collides. -/
@@ -396,6 +421,8 @@ example : ((mkCtx "t".toList exOpts exParams).toOption.map Ctx.positionalNames) 
 example : ((mkCtx "t".toList exOpts exParams).toOption.map Ctx.asKwargs) =
     some [("pos".toList, .none), ("my_list".toList, .l []), ("foo_bar".toList, .s "s".toList), ("x1".toList, .i 3),
           ("color".toList, .b true), ("quiet".toList, .b false), ("opt".toList, .none)] := by decide
+example : ((mkCtx "t".toList exOpts exParams).toOption.map (fun c => assoc? "--foo-bar".toList c.flags)) = some (some 2) := by
+  decide
 /-- the error side of `built_iff_no_clash` is inhabited too -/
 example : ¬ NoInverseCollision {} [⟨"color".toList, .bool true⟩, ⟨"no_color".toList, .bool false⟩] := by
   intro h
